@@ -175,9 +175,14 @@ func newSess() (*tsess, error) { return newSessFault(-1) }
 func newSessFault(failAt int) (*tsess, error) {
 	c1, c2 := net.Pipe()
 	t := &tsess{peer: c2, out: &common.SafeBuffer{}, handled: make(chan string, 16), serveRet: make(chan error, 1)}
-	t.cst = &connState{failAt: failAt}
+	// every transport of the harness honours the write deadline on every Write (round F), and
+	// every session is negotiated the way applications do it: with a context that is released
+	// once NewSession has returned - neither may matter for the established session
+	t.cst = &connState{failAt: failAt, honourWd: true}
 	go c2.Write([]byte(header))
-	s, err := xmpp.NewSession(context.Background(), remoteJID, localJID, conn{Conn: c1, out: t.out, st: t.cst}, 0, negotiator)
+	ctx, cancel := context.WithCancel(context.Background())
+	s, err := xmpp.NewSession(ctx, remoteJID, localJID, conn{Conn: c1, out: t.out, st: t.cst}, 0, negotiator)
+	cancel()
 	if err != nil {
 		return nil, err
 	}
@@ -220,12 +225,32 @@ func (t *tsess) startServe() {
 }
 
 // feed writes peer bytes; false if the session did not read them in time.
-func (t *tsess) feed(b string) bool {
-	return common.WithTimeout(5*time.Second, func() { t.peer.Write([]byte(b)) })
-}
+func (t *tsess) feed(b string) bool { return t.feedWithin(b, 5*time.Second) }
 
+// feedWithin: a Serve that returns while the bytes are waiting to be read will never read them:
+// that is noticed at once instead of after the timeout.
 func (t *tsess) feedWithin(b string, d time.Duration) bool {
-	return common.WithTimeout(d, func() { t.peer.Write([]byte(b)) })
+	done := make(chan struct{})
+	go func() { t.peer.Write([]byte(b)); close(done) }()
+	var ret chan error
+	if t.started && !t.served {
+		ret = t.serveRet
+	}
+	select {
+	case <-done:
+		return true
+	case err := <-ret:
+		t.serveRet <- err // leave it for whoever waits for Serve's result (buffered)
+		// bytes already in flight may still be taken by the shutdown; do not wait for them
+		select {
+		case <-done:
+			return true
+		case <-time.After(20 * time.Millisecond):
+			return false
+		}
+	case <-time.After(d):
+		return false
+	}
 }
 
 func (t *tsess) waitServe(d time.Duration) bool {
@@ -396,6 +421,11 @@ func (c *ctxT) hist(serve bool, ops []string, class string) {
 		// make sure Serve is reading before the first operation (a keep-alive is consumed at once)
 		if !t.feedWithin(" ", 2*time.Second) {
 			r.Line(line, "ERR serve does not read")
+			detail := "Serve, started on a freshly negotiated session, does not read from the connection"
+			if t.waitServe(0) {
+				detail = fmt.Sprintf("Serve, started on a freshly negotiated session (the negotiation context has been released), returned %q at once although the peer has not closed its stream", classifyRet(t.ret))
+			}
+			r.Fail("serve-returns", "serve-does-not-serve", lines, detail)
 			return
 		}
 	}
@@ -948,6 +978,20 @@ func Run(r *common.Run) error {
 				c.hist(true, h, "race")
 			}
 		}
+		return nil
+	}
+	// smoke: a served session handles a stanza and ends cleanly when the peer closes its stream.
+	// On a tree where not even that works the failure is reported with this replay and the
+	// scenarios whose watchdogs assume a working Serve (seconds each) are not run.
+	r.Mark("case smoke")
+	c.hist(true, []string{"m", "p"}, "smoke")
+	c.hist(true, []string{"m", "m", "c", "p"}, "smoke")
+	if len(r.Failures) > 0 {
+		for _, h := range [][]string{{"p"}, {"m"}, {"y", "p"}, {"c", "p"}, {"t1", "m", "p"}, {"d"}, {"df", "m", "p"}} {
+			c.hist(true, h, "smoke")
+		}
+		c.hist(false, []string{"v", "m", "p"}, "smoke")
+		r.Notes = append(r.Notes, "Serve does not serve on this tree (smoke histories failed): the remaining scenarios were skipped")
 		return nil
 	}
 	r.Mark("case close-blocked")
